@@ -132,9 +132,14 @@ fn convert_filtered(map: &Map, big: bool, required_markers: &BTreeSet<u64>) -> R
 }
 
 fn check_subset(d: &FDwarf, map: &Map, d0: &sem::DwarfDump, required: &BTreeSet<Target>, cx: &mut Ctx) -> R {
+    check_subset_with(d, &|req| convert_filtered(map, d.big, req), d0, required, cx)
+}
+
+/// `convert`: the filtered conversion under test, given the markers of the required entries.
+fn check_subset_with(d: &FDwarf, convert: &dyn Fn(&BTreeSet<u64>) -> Result<Map, String>, d0: &sem::DwarfDump, required: &BTreeSet<Target>, cx: &mut Ctx) -> R {
     let want = closure(d, required);
     let req_markers: BTreeSet<u64> = required.iter().map(|t| marker(*t)).collect();
-    let out = match convert_filtered(map, d.big, &req_markers) {
+    let out = match convert(&req_markers) {
         Ok(o) => o,
         Err(e) => {
             // the unfiltered conversion of the same input succeeded (checked by the caller): a filtered one must too
@@ -213,8 +218,13 @@ fn check_subset(d: &FDwarf, map: &Map, d0: &sem::DwarfDump, required: &BTreeSet<
 }
 
 fn gen_c19(ch: &mut Choices) -> FDwarf {
-    let mut d = gen_fdwarf(ch, &GenOpts { max_units: 3, max_dies: 9, lines: false, bad_refs: 0 });
-    // more structure: deeper nesting and a tag mix covering both categories
+    let mut d = gen_fdwarf(ch, &GenOpts { max_units: 3, max_dies: 9, lines: false, bad_refs: 0, split: false });
+    reshape(&mut d, ch);
+    d
+}
+
+/// More structure: deeper nesting and a tag mix covering both categories.
+fn reshape(d: &mut FDwarf, ch: &mut Choices) {
     for u in d.units.iter_mut() {
         u.partial = false;
         let n = u.dies.len();
@@ -230,7 +240,43 @@ fn gen_c19(ch: &mut Choices) -> FDwarf {
             }
         }
     }
-    d
+}
+
+/// The same property through the split-unit filter: `FilterUnitSection::new_split` + `convert_split_with_filter`.
+fn check_split(ch: &mut Choices, cx: &mut Ctx) -> R {
+    cx.label("split unit filter");
+    let c = crate::split::gen_split_with(ch, 9, &mut |d, ch| reshape(d, ch));
+    let d = &c.d;
+    cx.sample_with(|| format!("split compilation: {}", describe_fdwarf(d)));
+    let d_in = match crate::split::dump_split_input(&c) {
+        Ok(x) => x,
+        Err(e) => fail!("c19/harness/assembled-input-unreadable", "{}", e),
+    };
+    // only inputs whose unfiltered split conversion and write succeed (C12 judges those)
+    if crate::split::convert_split(&c, None).is_err() {
+        cx.label("unfiltered conversion refused");
+        return Ok(());
+    }
+    let d0 = crate::split::expected_dump(&c, &d_in);
+    let all: Vec<Target> = (1..d.units[0].dies.len()).map(|i| (0, i)).collect();
+    let conv = |req: &BTreeSet<u64>| crate::split::convert_split(&c, Some(req));
+    if all.len() <= 6 {
+        cx.label("every subset of required entries");
+        for mask in 0..(1u32 << all.len()) {
+            let req: BTreeSet<Target> = all.iter().enumerate().filter(|(i, _)| mask >> i & 1 == 1).map(|(_, t)| *t).collect();
+            check_subset_with(d, &conv, &d0, &req, cx)?;
+        }
+    } else {
+        cx.label("generated subsets of required entries");
+        for _ in 0..3 {
+            let density = ch.pick(&[20u32, 60, 128]);
+            let req: BTreeSet<Target> = all.iter().filter(|_| ch.chance(density)).copied().collect();
+            check_subset_with(d, &conv, &d0, &req, cx)?;
+        }
+        let one: BTreeSet<Target> = [all[ch.below(all.len())]].into_iter().collect();
+        check_subset_with(d, &conv, &d0, &one, cx)?;
+    }
+    Ok(())
 }
 
 fn check(ch: &mut Choices, cx: &mut Ctx) -> R {
@@ -277,7 +323,7 @@ impl Prop for C19 {
         "C19"
     }
     fn rule(&self) -> &'static str {
-        "assembler-built forests of 1-3 units x 1-9 entries (versions 2-5, both formats) with generated nesting, a tag mix over both categories (namespaces, types, subprogram definitions and declarations vs variables, members, parameters, blocks, enumerators, call sites), references in-unit and cross-unit in every reference form, cycles, references from expressions (call2/4, call_ref, typed operations, implicit_pointer, parameter_ref, nested entry_value) and from location lists in both section generations; required sets: every subset when there are <= 6 entries, otherwise three generated subsets of different density and one singleton. Oracle: an independent reachability closure over the model (required entries, their ancestors, everything retained entries refer to, member-like children of retained non-namespace entries); the identity markers present in the read-back output must equal the closure exactly (no missing entry, no unneeded entry), parents must be the original parents, attributes must equal the input's by meaning (the C12 dump), no reference may dangle, and conversion + write must succeed whenever the unfiltered conversion does. Non-trivial = the closure is strictly larger than the required set and strictly smaller than the forest; distinct by choice string."
+        "assembler-built forests of 1-3 units x 1-9 entries (versions 2-5, both formats) with generated nesting, a tag mix over both categories (namespaces, types, subprogram definitions and declarations vs variables, members, parameters, blocks, enumerators, call sites), references in-unit and cross-unit in every reference form, cycles, references from expressions (call2/4, call_ref, typed operations, implicit_pointer, parameter_ref, nested entry_value) and from location lists in both section generations; the same forests as the full unit of a split compilation (skeleton unit + .dwo sections, DWARF 4 GNU extension and DWARF 5) filtered with FilterUnitSection::new_split and converted with convert_split_with_filter; required sets: every subset when there are <= 6 entries, otherwise three generated subsets of different density and one singleton. Oracle: an independent reachability closure over the model (required entries, their ancestors, everything retained entries refer to, member-like children of retained non-namespace entries); the identity markers present in the read-back output must equal the closure exactly (no missing entry, no unneeded entry), parents must be the original parents, attributes must equal the input's by meaning (the C12 dump), no reference may dangle, and conversion + write must succeed whenever the unfiltered conversion does. Non-trivial = the closure is strictly larger than the required set and strictly smaller than the forest; distinct by choice string."
     }
     fn assumptions(&self) -> Vec<&'static str> {
         vec![
@@ -298,6 +344,9 @@ impl Prop for C19 {
         }
     }
     fn run_case(&self, ch: &mut Choices, cx: &mut Ctx) -> R {
+        if ch.chance(40) {
+            return check_split(ch, cx);
+        }
         check(ch, cx)
     }
 }
